@@ -58,8 +58,9 @@ class FakeStdin:
             raise anyio.ClosedResourceError()
         self.data.extend(b)
         self.log.append(("stdin", bytes(b)))
-        # a pipe write may suspend the writer (slow child): other tasks run before it returns
-        await anyio.sleep(0)
+        # a pipe write may suspend the writer (slow child): other tasks run before it returns;
+        # a write larger than the pipe buffer stays suspended until the child has drained it
+        await anyio.sleep(0.005 if len(b) >= 65536 else 0)
 
     async def aclose(self):
         if not self.closed:
@@ -554,10 +555,12 @@ def run_out(cases, seed=0):
                         # the child sends a batch at a version without batching: the READER task
                         # answers with an error line written straight to the child's stdin
                         client.set_protocol_version("2025-06-18")
+                        await anyio.sleep(0.001)       # the writer task is already inside its write
                         proc.stdout.feed(b'[{"jsonrpc":"2.0","method":"notifications/message","params":{}}]\n')
                     if st["op"] != "Accept" or st.get("idle", True):
                         await idle()
                         harvest()
+                await anyio.sleep(0.1)       # slow (large) writes finish
                 await idle()
                 harvest()
                 evs.append({"e": "End"})
